@@ -171,6 +171,7 @@ func (mutRewriter) Rewrite(n influxql.Node) influxql.Node {
 }
 
 var c14appendSeq int64
+var c14appendRe = regexp.MustCompile(`appended_[fdsm][0-9]+`)
 
 type c14mut struct {
 	name string
@@ -372,9 +373,11 @@ func c14One(c *Ctx, text string, idx int, local map[string]int64) {
 		st2, _, _, _, _ := parseQuery1(text)
 		_, _, _, a := stmtParts(st2)
 		var hist []string
+		var preOps, opsA, opsB []c14mut
 		for k, pre := 0, rg.Intn(3); k < pre; k++ {
 			m := c14muts[rg.Intn(len(c14muts))]
 			hist = append(hist, "before-clone:"+m.name)
+			preOps = append(preOps, m)
 			mon.Try(func() { m.run(a) })
 			local["history.before-clone"]++
 		}
@@ -396,11 +399,44 @@ func c14One(c *Ctx, text string, idx int, local map[string]int64) {
 			snap := c14Obs(watched)
 			m := c14muts[rg.Intn(len(c14muts))]
 			hist = append(hist, side+":"+m.name)
+			if side == "original" {
+				opsA = append(opsA, m)
+			} else {
+				opsB = append(opsB, m)
+			}
 			mon.Try(func() { m.run(victim) })
 			local["history."+m.name]++
 			if now := c14Obs(watched); now != snap {
 				r.Violation("mutation-visible-on-other-side", det(fmt.Sprintf("after %v (last step applied to the %s), the other side changed: %s", hist, side, astx.FirstDiff(snap, now))))
 				return
+			}
+		}
+		// Independence also means: each side ends where its own operations alone
+		// take it. The same operations on a fresh parse (and a clone taken at the
+		// same point), nothing else happening in between, must arrive there too.
+		if sched == "interleaved" && len(opsA) > 0 && len(opsB) > 0 {
+			st3, _, _, _, _ := parseQuery1(text)
+			_, _, _, a2 := stmtParts(st3)
+			for _, m := range preOps {
+				mon.Try(func() { m.run(a2) })
+			}
+			var b2 *influxql.SelectStatement
+			mon.Try(func() { b2 = a2.Clone() })
+			if b2 != nil {
+				for _, m := range opsB {
+					mon.Try(func() { m.run(b2) })
+				}
+				for _, m := range opsA {
+					mon.Try(func() { m.run(a2) })
+				}
+				for _, pr := range [][2]*influxql.SelectStatement{{a, a2}, {b, b2}} {
+					// (structure only: the interval memo answers by when it was first asked)
+					if x, y := c14appendRe.ReplaceAllString(dumpOf(pr[0]), "appended"), c14appendRe.ReplaceAllString(dumpOf(pr[1]), "appended"); x != y {
+						r.Violation("mutation-visible-on-other-side", det(fmt.Sprintf("after %v one side is not where its own operations take it when they run alone (clone first, then original): %s", hist, astx.FirstDiff(y, x))))
+						return
+					}
+				}
+				local["history.sides-end-where-their-own-operations-lead"]++
 			}
 		}
 	}
@@ -468,10 +504,38 @@ func c14One(c *Ctx, text string, idx int, local map[string]int64) {
 		for _, side := range []string{"result", "receiver"} {
 			st2, _, _, _, _ := parseQuery1(text)
 			_, _, _, a := stmtParts(st2)
+			if rg.Bool() {
+				// the receiver has answered these before (it keeps a memo of them)
+				mon.Try(func() { _, _ = a.GroupByInterval(); _, _ = a.GroupByOffset() })
+			}
 			var b *influxql.SelectStatement
 			mon.Try(func() { b = dv.mk(a) })
 			if b == nil {
 				break
+			}
+			// the returned statement answers for its own tree: like the statement
+			// the same call returns for a fresh parse that was never asked anything
+			if side == "result" {
+				st4, _, _, _, _ := parseQuery1(text)
+				if _, _, _, a4 := stmtParts(st4); a4 != nil {
+					var fresh *influxql.SelectStatement
+					mon.Try(func() { fresh = dv.mk(a4) })
+					if fresh != nil {
+						gb := func(s *influxql.SelectStatement) (out string) {
+							mon.Try(func() {
+								d, e1 := s.GroupByInterval()
+								o, e2 := s.GroupByOffset()
+								out = fmt.Sprint(d, e1, o, e2)
+							})
+							return
+						}
+						if x, y := gb(b), gb(fresh); x != y || dumpOf(b) != dumpOf(fresh) {
+							r.Violation("mutation-visible-on-other-side", det(fmt.Sprintf("%s of a statement that had been asked for its GROUP BY interval before returns a statement whose interval / offset are %s; of the same statement freshly parsed, %s (%s)", dv.name, x, y, astx.FirstDiff(dumpOf(fresh), dumpOf(b)))))
+							return
+						}
+						local["derived.group-by-answers-own-tree"]++
+					}
+				}
 			}
 			victim, watched := b, a
 			if side == "receiver" {
